@@ -540,6 +540,34 @@ fn replay(args: &[String]) {
     let s = std::fs::read_to_string(path).unwrap_or_else(|e| die(&format!("read {}: {}", path, e)));
     let v: Value = serde_json::from_str(&s).unwrap_or_else(|e| die(&format!("parse {}: {}", path, e)));
     let cold = v.get("cold").and_then(|x| x.as_bool()).unwrap_or(false);
+    if cold && std::env::var_os("VERIF_IN_CHILD").is_none() {
+        // a cold-start history runs as the first thing of a child process; its own deferred oracles judge it
+        // there, and this (other) process gives the second opinion on the recorded calls
+        let exe = std::env::current_exe().unwrap();
+        let reg = sim::registry::build();
+        let a: Vec<String> = ["cold-exec", path, "--known", arg(args, "--known").unwrap_or("/verif/known_findings.json")].iter().map(|s| s.to_string()).collect();
+        let j = spawn_json(&exe, &a).unwrap_or_else(|e| die(&e));
+        let mut slots = sim::mem::Slots::new();
+        let sl = slots.alloc(0);
+        let got = Violation::from_json(&j["violation"]).or_else(|| {
+            judge_records(&reg, j["records"].as_array().map(|a| a.as_slice()).unwrap_or(&[]), slots.ptr(sl)).map(|(rec, want)| cross_process_violation(&rec, &want))
+        });
+        match got {
+            Some(g) => {
+                println!("{}", g.to_json());
+                let want_class = v["violation"]["class"].as_str().unwrap_or("");
+                if g.class == want_class && g.step as u64 == v["violation"]["step"].as_u64().unwrap_or(u64::MAX) {
+                    println!("REPRODUCED exactly (class {}, step {})", g.class, g.step);
+                } else {
+                    println!("REPRODUCED a violation of {} but not the recorded one (recorded class {})", g.prop, want_class);
+                }
+                println!("VIOLATION property={} replay={}", v["property"].as_str().unwrap_or("?"), path);
+                std::process::exit(1);
+            }
+            None => println!("NOT-REPRODUCED: the cold history ran without a violation, in its own process and by this process's second opinion"),
+        }
+        return;
+    }
     if let Some(c) = v.get("churn").filter(|x| x.is_object()) {
         let reg = sim::registry::build();
         install_quiet_panic_hook();
@@ -759,6 +787,51 @@ fn cold_exec(args: &[String]) {
     println!("{}", serde_json::to_string(&run_result_json(&reg, &r)).unwrap());
 }
 
+/// Judge the calls a cold child recorded, in THIS process (whose global state has another history).
+/// Returns the first record whose output differs from a fresh combined cipher evaluated here.
+fn judge_records(reg: &sim::registry::Registry, records: &[Value], scratch: *mut u8) -> Option<(Value, Vec<u8>)> {
+    for rec in records {
+        if rec["detect"].as_bool().unwrap_or(false) && rec["mask_aes"].as_bool().unwrap_or(false) {
+            continue; // the fault mask is process-global and this process keeps it off
+        }
+        let (Some(both), Some(key), Some(dir), Some(data), Some(out)) = (
+            rec["both"].as_str().and_then(|n| reg.type_by_name(n)),
+            rec["key"].as_str().and_then(sim::prng::unhex),
+            rec["dir"].as_str().and_then(sim::registry::Dir::parse),
+            rec["data"].as_str().and_then(sim::prng::unhex),
+            rec["out"].as_str().and_then(sim::prng::unhex),
+        ) else {
+            continue;
+        };
+        if key.is_empty() {
+            continue;
+        }
+        if let Ok(want) = sim::world::fresh_perblock_raw(&reg.types[both], scratch, &key, false, dir, &data) {
+            if want != out {
+                return Some((rec.clone(), want));
+            }
+        }
+    }
+    None
+}
+
+fn cross_process_violation(rec: &Value, want: &[u8]) -> Violation {
+    Violation {
+        prop: "C15",
+        class: "cross-process".into(),
+        step: rec["step"].as_u64().unwrap_or(0) as usize,
+        family: String::new(),
+        variant: String::new(),
+        detail: format!(
+            "{} {} (route {}, key {}) returned, in a process that ran only this history, bytes that differ from what a fresh {} returns for the same key and input in another process: the result depends on what else the process has done",
+            rec["type"].as_str().unwrap_or("?"), rec["dir"].as_str().unwrap_or("?"), rec["route"], rec["key"].as_str().unwrap_or(""), rec["both"].as_str().unwrap_or("?")
+        ),
+        expected: want.to_vec(),
+        got: rec["out"].as_str().and_then(sim::prng::unhex).unwrap_or_default(),
+        also: if rec["route"].as_array().map(|a| a.len() > 1).unwrap_or(false) { vec!["C12"] } else { vec![] },
+    }
+}
+
 pub struct ColdOut {
     pub runs: u64,
     pub nontrivial: u64,
@@ -791,6 +864,9 @@ fn cold_phase(prop: Prop, seed: u64, total: u64, workers: u64, known_path: &str,
                 let reg = &reg;
                 sc.spawn(move || {
                     let mut o = ColdOut { runs: 0, nontrivial: 0, stats: Stats::default(), digests: vec![], violations: vec![], herr: vec![], notes: vec![], wall: 0.0 };
+                    let mut jslots = sim::mem::Slots::new();
+                    let jslot = jslots.alloc(0);
+                    let jptr = jslots.ptr(jslot);
                     let mut i = w;
                     while i < total {
                         let rs = sim::prng::run_seed(seed ^ 0xC01D, i);
@@ -809,6 +885,16 @@ fn cold_phase(prop: Prop, seed: u64, total: u64, workers: u64, known_path: &str,
                                 for n in j["notes"].as_array().cloned().unwrap_or_default() {
                                     if o.notes.len() < 4 {
                                         o.notes.push(format!("note: {}-class divergence seen in cold run {} (not this check's property): {}", n["property"].as_str().unwrap_or("?"), i, n["detail"].as_str().unwrap_or("")));
+                                    }
+                                }
+                                let mut j = j;
+                                if j["violation"].is_null() {
+                                    // second opinion from another process (this one)
+                                    if let Some((rec, want)) = judge_records(reg, j["records"].as_array().map(|a| a.as_slice()).unwrap_or(&[]), jptr) {
+                                        let v = cross_process_violation(&rec, &want);
+                                        if v.concerns(prop.name()) {
+                                            j["violation"] = v.to_json();
+                                        }
                                     }
                                 }
                                 if !j["violation"].is_null() && o.violations.len() < 2 {
@@ -831,7 +917,9 @@ fn cold_phase(prop: Prop, seed: u64, total: u64, workers: u64, known_path: &str,
                                             std::fs::write(&cand, serde_json::to_string(&rj).unwrap()).ok()?;
                                             let a: Vec<String> = ["cold-exec", &cand, "--known", known_path].iter().map(|s| s.to_string()).collect();
                                             let j = spawn_json(&exe, &a).ok()?;
-                                            Violation::from_json(&j["violation"])
+                                            Violation::from_json(&j["violation"]).or_else(|| {
+                                                judge_records(reg, j["records"].as_array().map(|a| a.as_slice()).unwrap_or(&[]), jptr).map(|(rec, want)| cross_process_violation(&rec, &want))
+                                            })
                                         };
                                         let (path, vj) = match shrink_with(&rr, prop.name(), &mut exec) {
                                             Some(s) => {
